@@ -1364,7 +1364,10 @@ class Gen:
 
 def translate(src, name, calls, effects, chans=(), mutcalls=None, handles=(), fuelcalls=None, stcalls=(), state_param=None, selfmethods=(), cells=(), iterators=()):
     fn_only = name.split(".")[-1]
-    toks = tokenize(find_fn(src, name))
+    # a statement under #[cfg(amiquip_verif)] is a hook of this machinery, compiled out of the crate
+    # proper: it is not part of the function
+    body_src = re.sub(r"#\[cfg\(amiquip_verif\)\]\s*[^;{}]*;", "", find_fn(src, name))
+    toks = tokenize(body_src)
     if state_param and state_param.get(name):
         # a free function whose state is one of its parameters (a `&mut ChannelSlot`, a `&Sender<T>`):
         # that parameter plays the part of self
